@@ -342,6 +342,11 @@ func (r *UnitRun) finish(st *State, vals []Val, n *ast.ReturnStmt) {
 			}()
 		}
 	}
+	// intermediate facts marked @early are established before publication (the representation invariant of a tensor
+	// built here may need them)
+	if len(r.unit.Have) > 0 && !r.errReturnedVals(vals) {
+		r.haveClauses(st, vals, n, true)
+	}
 	// publication of the tensors allocated in this call (not on error returns)
 	if !r.errReturnedVals(vals) {
 		r.publish(st, n)
@@ -371,38 +376,7 @@ func (r *UnitRun) finish(st *State, vals []Val, n *ast.ReturnStmt) {
 	}
 	// intermediate facts ("have"): stated over the locals as they are at this return, proved in order, then assumed
 	if len(r.unit.Have) > 0 && !r.errReturnedVals(vals) {
-		for i, c := range r.unit.Have {
-			func() {
-				defer func() {
-					if x := recover(); x != nil {
-						if tl, ok := x.(toolLimit); ok {
-							if os.Getenv("QV_DEBUG") != "" {
-								fmt.Fprintf(os.Stderr, "have %d of %s skipped: %s\n", i, r.unit.Name, string(tl))
-							}
-							return // a local is not defined on this path
-						}
-						panic(x)
-					}
-				}()
-				henv := &SpecEnv{run: r, st: st, old: r.entry, bound: map[string]Val{}}
-				// locals keep their own values (a named result may be reassigned before the return statement); the
-				// returned values are res0, res1, ...
-				for i := range res {
-					henv.bound[fmt.Sprintf("res%d", i)] = bound[fmt.Sprintf("res%d", i)]
-				}
-				if sv, ok := st.ghost["self"]; ok {
-					henv.bound["self"] = sv
-				}
-				goal := r.specBool(henv, c, "have of "+r.unit.Name)
-				ost := st
-				if len(c.Uses) > 0 {
-					ost = st.clone()
-					r.assumeNamed(ost, c.Uses)
-				}
-				r.oblige(ost, "have", fmt.Sprintf("%d", i), goal, n, "intermediate fact: "+c.Text, c.Tags)
-				st.assume(goal)
-			}()
-		}
+		r.haveClauses(st, vals, n, false)
 	}
 	for _, rv := range res {
 		if rv.obj != nil {
@@ -1104,6 +1078,51 @@ func (r *UnitRun) publish(st *State, n *ast.ReturnStmt) {
 			st.assume(env.boolOf(publishAssume))
 			st.assume(sx("published", o.T))
 			delete(st.ghost, key)
+		}()
+	}
+}
+
+// haveClauses proves and then assumes the unit's intermediate facts (the @early ones before publication, the others
+// after it). The returned values are visible as res0, res1, ...; locals keep their own values.
+func (r *UnitRun) haveClauses(st *State, vals []Val, n *ast.ReturnStmt, early bool) {
+	res := r.resultNames()
+	var node ast.Node
+	if n != nil {
+		node = n
+	}
+	for i, c := range r.unit.Have {
+		if c.Early != early {
+			continue
+		}
+		func() {
+			defer func() {
+				if x := recover(); x != nil {
+					if tl, ok := x.(toolLimit); ok {
+						if os.Getenv("QV_DEBUG") != "" {
+							fmt.Fprintf(os.Stderr, "have %d of %s skipped: %s\n", i, r.unit.Name, string(tl))
+						}
+						return // a local is not defined on this path
+					}
+					panic(x)
+				}
+			}()
+			henv := &SpecEnv{run: r, st: st, old: r.entry, bound: map[string]Val{}}
+			for k, rv := range res {
+				if k < len(vals) {
+					henv.bound[fmt.Sprintf("res%d", k)] = r.convertTo(st, vals[k], rv.typ)
+				}
+			}
+			if sv, ok := st.ghost["self"]; ok {
+				henv.bound["self"] = sv
+			}
+			goal := r.specBool(henv, c, "have of "+r.unit.Name)
+			ost := st
+			if len(c.Uses) > 0 {
+				ost = st.clone()
+				r.assumeNamed(ost, c.Uses)
+			}
+			r.oblige(ost, "have", fmt.Sprintf("%d", i), goal, node, "intermediate fact: "+c.Text, c.Tags)
+			st.assume(goal)
 		}()
 	}
 }
